@@ -329,7 +329,8 @@ type prover struct {
 	untracked  map[*ssa.Alloc]bool // locals whose address escapes: never tracked
 	wr         map[*types.Var]bool
 	incomplete bool
-	li         *LockInfo            // must-held locks (for guarded-field memory)
+	smallSeen  map[ssa.Value]bool
+	li         *LockInfo             // must-held locks (for guarded-field memory)
 	guardOf    map[*types.Var]string // guarded field → name of its mutex field (C16's frozen table)
 	want       map[ssa.Instruction]bool
 	sums       map[*ssa.Function]boolSummary
@@ -440,7 +441,10 @@ func (pv *prover) intTerm(v ssa.Value) (int, int64, bool) {
 			return 0, 0, false
 		}
 		if x.Op == token.ADD || x.Op == token.SUB {
-			if c, ok := x.Y.(*ssa.Const); ok && c.Value != nil {
+			// x ± c is "the atom of x, shifted" only when the machine addition cannot wrap: x is a length, a
+			// counter, an index found in a slice, a narrow value … (smallValue).  For anything else — a number
+			// that came off the wire, a parameter — the sum is a value of its own: MaxInt + 1 is negative.
+			if c, ok := x.Y.(*ssa.Const); ok && c.Value != nil && pv.smallValue(x.X, 0) {
 				if k, ok := constant.Int64Val(c.Value); ok && k > -1<<40 && k < 1<<40 {
 					if a, off, ok := pv.intTerm(x.X); ok {
 						if x.Op == token.SUB {
@@ -450,11 +454,17 @@ func (pv *prover) intTerm(v ssa.Value) (int, int64, bool) {
 					}
 				}
 			}
-			if c, ok := x.X.(*ssa.Const); ok && c.Value != nil && x.Op == token.ADD {
+			if c, ok := x.X.(*ssa.Const); ok && c.Value != nil && x.Op == token.ADD && pv.smallValue(x.Y, 0) {
 				if k, ok := constant.Int64Val(c.Value); ok && k > -1<<40 && k < 1<<40 {
 					if a, off, ok := pv.intTerm(x.Y); ok {
 						return a, off + k, true
 					}
+				}
+			}
+			// the same expression computed twice is the same machine value
+			if _, isK := x.Y.(*ssa.Const); isK {
+				if _, stable := pv.termStable(x.X); stable {
+					return pv.atom("sum:" + Term(x)), 0, true
 				}
 			}
 		}
@@ -1112,6 +1122,42 @@ func (pv *prover) define(z *zone, in ssa.Instruction) {
 			return
 		}
 		switch x.Op {
+		case token.ADD, token.SUB:
+			// a sum that intTerm kept as a value of its own (its operand is not structurally small): when the
+			// zone bounds the operand on the side the constant moves it to, the machine sum is the mathematical one
+			if k, isK := x.Y.(*ssa.Const); isK && k.Value != nil && !pv.smallValue(x.X, 0) && off == 0 {
+				if kv, ok := constant.Int64Val(k.Value); ok && kv > -1<<40 && kv < 1<<40 {
+					if x.Op == token.SUB {
+						kv = -kv
+					}
+					if xa, xoff, ok := pv.intTerm(x.X); ok && xa != a {
+						b := pv.boundsOf(z, x.X)
+						lim := int64(1) << 62
+						if pv.ip.arch32 {
+							lim = 1 << 30
+						}
+						safe := (kv >= 0 && b.okHi && b.hi < lim) || (kv < 0 && b.okLo && b.lo > -lim)
+						if !safe && kv >= 0 {
+							// bounded by a length: x + k <= len(..) <= MaxInt
+							z.grow(len(pv.names))
+							for li, nm := range pv.names {
+								if strings.HasPrefix(nm, "len:") && li < z.n && xa < z.n {
+									if d := z.d[xa*z.n+li]; d < zInf && d+xoff+kv <= 0 {
+										safe = true
+										break
+									}
+								}
+							}
+						}
+						if safe {
+							z.grow(len(pv.names))
+							// a = xa + xoff + kv
+							z.add(a, xa, xoff+kv)
+							z.add(xa, a, -(xoff + kv))
+						}
+					}
+				}
+			}
 		case token.AND:
 			// x & c  in [0, c] for a non-negative constant mask
 			for _, opnd := range []ssa.Value{x.X, x.Y} {
@@ -2295,4 +2341,172 @@ func hasOpaqueCalls(p *Program, fn *ssa.Function, depth int, seen map[*ssa.Funct
 		}
 	}
 	return false
+}
+
+// smallValue: a value whose magnitude is structurally far from the ends of its type, so that adding or
+// subtracting a source constant cannot wrap: lengths, loop counters that start at a constant and move by
+// constants, positions found inside a slice, narrow integers widened, masked or reduced values.
+func (pv *prover) smallValue(v ssa.Value, depth int) bool {
+	if depth > 6 {
+		return false
+	}
+	switch x := v.(type) {
+	case *ssa.Const:
+		if x.Value == nil || x.Value.Kind() != constant.Int {
+			return false
+		}
+		k, ok := constant.Int64Val(x.Value)
+		return ok && k > -1<<40 && k < 1<<40
+	case *ssa.Call:
+		if b, ok := x.Call.Value.(*ssa.Builtin); ok {
+			switch b.Name() {
+			case "len", "cap", "copy":
+				return true
+			case "min", "max":
+				for _, a := range x.Call.Args {
+					if !pv.smallValue(a, depth+1) {
+						return false
+					}
+				}
+				return true
+			}
+			return false
+		}
+		if sc := x.Call.StaticCallee(); sc != nil {
+			switch sc.String() {
+			case "bytes.IndexByte", "strings.IndexByte", "bytes.Index", "strings.Index", "bytes.IndexRune", "strings.IndexRune", "bytes.LastIndexByte", "strings.LastIndexByte", "bytes.IndexAny", "strings.IndexAny",
+				"(*encoding/base64.Encoding).DecodedLen", "(*encoding/base64.Encoding).EncodedLen", "(reflect.Value).Len", "(reflect.Value).NumField", "(*bytes.Buffer).Len":
+				return true
+			}
+			// a module callee whose result is bounded on both sides
+			if pv.p.inModule(sc) && isIntType(x.Type()) {
+				if rb := pv.ip.resultBounds(sc, 0); rb.set && rb.okLo && rb.okHi && rb.lo > -1<<40 && rb.hi < 1<<40 {
+					return true
+				}
+			}
+		}
+		if x.Call.IsInvoke() {
+			switch x.Call.Method.FullName() {
+			case "(reflect.Type).NumIn", "(reflect.Type).NumOut", "(reflect.Type).NumField", "(reflect.Type).Len":
+				return true
+			}
+		}
+		return false
+	case *ssa.Extract:
+		if call, ok := x.Tuple.(*ssa.Call); ok && call.Call.StaticCallee() != nil {
+			switch call.Call.StaticCallee().String() {
+			case "(*encoding/base64.Encoding).Decode", "io.ReadFull", "(io.Reader).Read":
+				return x.Index == 0
+			}
+		}
+		return false
+	case *ssa.Phi:
+		if _, ok := loopIndex(x); ok {
+			return true
+		}
+		if pv.smallSeen == nil {
+			pv.smallSeen = map[ssa.Value]bool{}
+		}
+		if pv.smallSeen[x] {
+			return true // a cycle through the phi itself: decided by its other edges
+		}
+		pv.smallSeen[x] = true
+		defer delete(pv.smallSeen, x)
+		for _, e := range x.Edges {
+			if !pv.smallValue(e, depth+1) {
+				return false
+			}
+		}
+		return true
+	case *ssa.BinOp:
+		switch x.Op {
+		case token.ADD, token.SUB:
+			if _, ok := loopIndex(x); ok {
+				return true
+			}
+			if k, isK := x.Y.(*ssa.Const); isK && pv.smallValue(k, depth+1) {
+				return pv.smallValue(x.X, depth+1)
+			}
+			return depth < 3 && pv.smallValue(x.X, depth+1) && pv.smallValue(x.Y, depth+1)
+		case token.AND:
+			for _, o := range []ssa.Value{x.X, x.Y} {
+				if k, isK := o.(*ssa.Const); isK && pv.smallValue(k, depth+1) {
+					if kv, _ := constant.Int64Val(k.Value); kv >= 0 {
+						return true
+					}
+				}
+			}
+		case token.REM:
+			if k, isK := x.Y.(*ssa.Const); isK {
+				return pv.smallValue(k, depth+1)
+			}
+		}
+		return false
+	case *ssa.Convert:
+		if !isIntType(x.X.Type()) || !isIntType(x.Type()) {
+			return false
+		}
+		bits := intBits(x.X.Type(), pv.ip.arch32)
+		if bits <= 16 || (bits == 32 && !pv.ip.arch32 && intBits(x.Type(), false) == 64) {
+			return true
+		}
+		return intBits(x.Type(), pv.ip.arch32) >= bits && pv.smallValue(x.X, depth+1)
+	case *ssa.ChangeType:
+		return pv.smallValue(x.X, depth+1)
+	case *ssa.UnOp:
+		if x.Op == token.MUL {
+			// a local counter kept in memory: every store to it is small
+			if al, ok := x.X.(*ssa.Alloc); ok && al.Referrers() != nil && !pv.untracked[al] {
+				if pv.smallSeen == nil {
+					pv.smallSeen = map[ssa.Value]bool{}
+				}
+				if pv.smallSeen[al] {
+					return true
+				}
+				pv.smallSeen[al] = true
+				defer delete(pv.smallSeen, al)
+				n := 0
+				for _, r := range *al.Referrers() {
+					if st, ok := r.(*ssa.Store); ok && st.Addr == ssa.Value(al) {
+						n++
+						if !pv.smallValue(st.Val, depth+1) {
+							return false
+						}
+					}
+				}
+				return n > 0
+			}
+			if isIntType(x.Type()) && intBits(x.Type(), pv.ip.arch32) <= 16 {
+				return true
+			}
+		}
+	}
+	return false
+}
+
+// termStable: the value's term denotes the same machine value wherever it is computed in this function
+// (built from parameters, stable field loads, constants and pure arithmetic).
+func (pv *prover) termStable(v ssa.Value) (string, bool) {
+	switch x := v.(type) {
+	case *ssa.Parameter, *ssa.Const:
+		return Term(v), true
+	case *ssa.UnOp:
+		if _, ok := pv.stableLoad(x); ok {
+			return Term(v), true
+		}
+		return "", false
+	case *ssa.BinOp:
+		if _, ok := pv.termStable(x.X); ok {
+			if _, ok2 := pv.termStable(x.Y); ok2 {
+				return Term(v), true
+			}
+		}
+	case *ssa.Convert:
+		return pv.termStable(x.X)
+	case *ssa.Call:
+		if b, ok := x.Call.Value.(*ssa.Builtin); ok && b.Name() == "len" {
+			return pv.termStable(x.Call.Args[0])
+		}
+	}
+	return "", false
 }
